@@ -360,6 +360,16 @@ func (t *trieRun) genCase(c *Ctx, r *RNG, id string) *TrieCase {
 				continue
 			}
 		}
+		if r.Intn(12) == 0 {
+			// directed shape: the packed label bitmaps end exactly on a word boundary with a set
+			// bit (rank / leftMost / rightMost read the very last bit of Inners)
+			if d := directedInnersFull(r.Fork(), id, 400); d != nil {
+				vk := []int{VNil, VDistinct}[r.Intn(2)]
+				tc.Keys, tc.Kind = d.Keys, d.Kind
+				tc.IDs, tc.VKind = genValueIDs(r, len(d.Keys), vk), vkindNames[vk]
+				tc.Queries = genQueries(r, tc.Keys, t.qbudget)
+			}
+		}
 		if t.encs != nil {
 			tc.Enc = t.encs[r.Intn(len(t.encs))]
 		}
